@@ -12,7 +12,7 @@ QUOTED_LEX = re.compile(r"^\s*(\d+)\s+\|- (.*)$")
 CARET = re.compile(r"^\s*\^+\s*$")
 
 FAULT_KINDS = ["illegal_char", "stray_paren", "bad_literal", "undefined", "fin_assign", "bad_argument", "bad_operand",
-               "bad_return_annotation"]
+               "bad_return_annotation", "after_escaped_string"]
 # text with line breaks inside string literals and doc-strings, placed before the fault: every later line number depends on how
 # the lexer counts the lines of these tokens
 PRELUDES = ['"""\nmodule doc\n"""\n', '"""module doc"""\n', '"""\n\n"""\n', '"""\nfirst\nsecond\n"""\n',
@@ -77,6 +77,14 @@ def inject(draw, text):
         # literals that occur nowhere else in the file (open finding F37: equal expressions share one position)
         "bad_operand": ['def zq9 := 9128 + "zq9a"', "def zq9 := 9129 < \"zq9b\""],
     }
+    if kind == "after_escaped_string":
+        # the faulty token stands behind a string literal full of escape sequences, at the end of its line: a column that
+        # is computed from anything but the source text of the literal leaves the line
+        esc = draw(st.sampled_from(['"\\t|\\t\\n"', '"a\\\\b\\\\c\\\\d"', '"\\n\\n\\n\\n\\n\\n"', '"q\\"q\\"q\\"q"']))
+        form = draw(st.sampled_from(["def zs9 := %s $", "def zs9 := %s )", "print(%s + undefined_name_zs9)", "def zs9 := %s !",
+                                     "print(%s, undefined_name_zs9)"]))
+        lines[i:i] = [ind + form % esc]
+        return "\n".join(lines), i + 1, kind
     if kind == "fin_assign":
         lines[i:i] = [ind + "def fin zq8 := 1", ind + "zq8 := 2"]
         return "\n".join(lines), i + 2, kind
